@@ -147,3 +147,75 @@ Proof.
   exists s. split; [reflexivity|]. split; [exact (run_Inv_lemma _ _ E)|].
   vm_compute in E. inversion E. vm_compute. repeat split; reflexivity.
 Qed.
+
+(* ==== extension: frame_base.py — which state merges into which (Flow/Frame.v) ================== *)
+From PV Require Import Flow.Frame Flow.FrameProofs.
+
+(* For every ACYCLIC block graph processed in the order of code.order (wf_code: distinct block ids, every
+   jump target / fall-through lies strictly later; any number of blocks, stores, atoms, repeated atoms),
+   every initial locals, every block position p: the state with which FrameBase enters the block satisfies
+   Inv, and under every valuation rho
+   - a local x can have value v in it  iff  some control path from the entry block that is enabled under
+     rho reaches the block with an environment (built by the straight-line stores along the path) in
+     which x = v;
+   - its block condition holds  iff  some enabled path reaches the block. *)
+Theorem frame_join_exact : forall code init, wf_code code = true ->
+  forall p b s, nth_error code p = Some b -> entry_state code init p = Some s ->
+  Inv s /\
+  forall rho,
+    (forall x v, In v (vals rho s x) <->
+                 exists e, arrives code init rho (bid b) e /\ dget x e = Some v) /\
+    (holds rho (scond s) = true <-> exists e, arrives code init rho (bid b) e).
+Proof. exact frame_join_exact_lemma. Qed.
+Print Assumptions frame_join_exact.
+
+(* a block that some enabled path reaches has a recorded state when its turn comes (no KeyError there) *)
+Theorem frame_reached_has_state : forall code init p b f rho e,
+  wf_code code = true -> nth_error code p = Some b -> run_prefix code init p = Some f ->
+  arrives code init rho (bid b) e -> exists s, entry_state code init p = Some s.
+Proof. exact frame_reached_has_state_lemma. Qed.
+Print Assumptions frame_reached_has_state.
+
+(* ---- non-vacuity: a diamond, and a nested if followed by a join ---- *)
+(*  B0: if not a0 jump B3      B1: x = 1; jump B5      B3: x = 2 (fall)      B5: ret  *)
+Definition code_diamond : list block :=
+  [mkBlk 0 [] (TCond 0 3 1); mkBlk 1 [(0, 1)] (TJump 5); mkBlk 3 [(0, 2)] (TFall 5); mkBlk 5 [] TRet].
+
+Example diamond_frame : wf_code code_diamond = true /\
+  exists s, entry_state code_diamond [] 3 = Some s /\
+    vals rho_t s 0 = [1] /\ vals rho_f s 0 = [2] /\ holds rho_f (scond s) = true.
+Proof.
+  split; [reflexivity|].
+  destruct (entry_state code_diamond [] 3) as [s|] eqn:E; [|vm_compute in E; discriminate].
+  exists s. split; [reflexivity|]. vm_compute in E. inversion E. vm_compute. repeat split; reflexivity.
+Qed.
+
+Example diamond_path : arrives code_diamond [] rho_f 5 [(0, 2)].
+Proof.
+  unfold arrives. change [(0, 2)] with (apply_stores [(0, 2)] (apply_stores [] (init_env []))).
+  apply (ak_step code_diamond [] rho_f _ 2 (mkBlk 3 [(0, 2)] (TFall 5))); [simpl; auto | reflexivity | | left; reflexivity].
+  apply (ak_step code_diamond [] rho_f _ 0 (mkBlk 0 [] (TCond 0 3 1))); [simpl; auto | reflexivity | | left; reflexivity].
+  apply (ak_entry code_diamond [] rho_f _ (mkBlk 0 [] (TCond 0 3 1))). reflexivity.
+Qed.
+
+(*  x = 9 initially.
+    B0: if not a0 jump B6    B1: if not a1 jump B4    B2: x = 1; jump B8    B4: x = 2; jump B8
+    B6: x = 3 (fall)         B8: y = 1; ret *)
+Definition code_nested : list block :=
+  [mkBlk 0 [] (TCond 0 6 1); mkBlk 1 [] (TCond 1 4 2); mkBlk 2 [(0, 1)] (TJump 8);
+   mkBlk 4 [(0, 2)] (TJump 8); mkBlk 6 [(0, 3)] (TFall 8); mkBlk 8 [(1, 1)] TRet].
+Definition rho_10 (a : nat) : bool := Nat.eqb a 0.
+
+Example nested_frame : wf_code code_nested = true /\
+  exists s, entry_state code_nested [(0, 9)] 5 = Some s /\
+    vals rho_t s 0 = [1] /\ vals rho_10 s 0 = [2] /\ vals rho_f s 0 = [3] /\
+    exists s4, entry_state code_nested [(0, 9)] 3 = Some s4 /\
+      vals rho_10 s4 0 = [9] /\ vals rho_t s4 0 = [] /\ holds rho_t (scond s4) = false.
+Proof.
+  split; [reflexivity|].
+  destruct (entry_state code_nested [(0, 9)] 5) as [s|] eqn:E; [|vm_compute in E; discriminate].
+  exists s. split; [reflexivity|]. vm_compute in E. inversion E.
+  split; [vm_compute; reflexivity|]. split; [vm_compute; reflexivity|]. split; [vm_compute; reflexivity|].
+  destruct (entry_state code_nested [(0, 9)] 3) as [s4|] eqn:E4; [|vm_compute in E4; discriminate].
+  exists s4. split; [reflexivity|]. vm_compute in E4. inversion E4. vm_compute. repeat split; reflexivity.
+Qed.
